@@ -152,6 +152,8 @@ def gen_setup_cfg(rng, n):
         if reqs:
             yield "setup.cfg", "[metadata]\nname = p\n\n[options]\ninstall_requires =\n%s\n[flake8]\nmax-line-length = 100\n" % "".join(f"    {r}\n" for r in reqs), {}
             yield "setup.cfg", "[metadata]\nname = p\n\n[options]\npython_requires = >=3.8\ninstall_requires =\n%s\n" % "".join(f"\t{r}\n" for r in reqs), {}
+            yield "setup.cfg", ("[metadata]\nname = p\n\n[options]\ninstall_requires =\n%s\n[options.extras_require]\nextra =\n    %s\n    zzz-extra\n"
+                                % ("".join(f"    {r}\n" for r in reqs), reqs[-1])), {}
 
 
 def gen_setup_py(rng, n):
@@ -251,6 +253,18 @@ def evaluate(tmp, fname, text, aux, deps):
         lost = [ln for ln in src if not _consume(it, ln)]
         if lost and fname in ("requirements.txt", "setup.cfg"):
             return {"clause": "unrelated content kept", "lost lines": lost[:3], "after": after}
+    # a later codemod of the SAME run (same cached package stores) that needs the same package adds nothing
+    if cs is not None:
+        try:
+            cs_same = None
+            for st in stores:
+                cs_same = cs_same or DependencyManager(st, root).write(list(deps), dry_run=False)
+        except Exception as e:      # noqa
+            return {"clause": "a later codemod of the same run needing the same package: still succeeds", "observed": f"raised {type(e).__name__}: {e}", "after": after}
+        after_same = (root / fname).read_bytes().decode("utf-8")
+        if cs_same is not None or after_same != after:
+            return {"clause": "a later codemod of the same run needing the same package adds nothing (same package stores)", "after first": after,
+                    "after second": after_same}
     # a second run adds nothing
     try:
         cs2, _ = run_once()
@@ -267,6 +281,44 @@ def _consume(it, ln):
         if x == ln or x.rstrip(",") == ln.rstrip(","):
             return True
     return False
+
+
+def run_undecodable(tmp):
+    """a manifest the project's parser accepts but that is not UTF-8 (UTF-16 with BOM): the writer cannot edit it faithfully, so it must
+    be left byte-identical and no changeset may claim an update"""
+    from codemodder.dependency import Security
+    from codemodder.dependency_management import DependencyManager
+    from codemodder.project_analysis.python_repo_manager import PythonRepoManager
+    root = Path(tmp)
+    evals, bad = 0, None
+    for name, text in (("requirements.txt", "# deps\nrequests==2.31.0\nflask>=2.0\n-r other.txt\n"),):
+        for enc in ("utf-16", "latin-1"):
+            for f in root.iterdir():
+                if f.is_file():
+                    f.unlink()
+            data = (text if enc == "utf-16" else text.replace("deps", "d\xe9ps")).encode(enc)
+            (root / name).write_bytes(data)
+            (root / "other.txt").write_text("")
+            evals += 1
+            try:
+                cs = None
+                for st in PythonRepoManager(root).package_stores:
+                    cs = cs or DependencyManager(st, root).write([Security], dry_run=False)
+            except Exception as e:      # noqa
+                cs = f"raised {type(e).__name__}: {e}"
+            after = (root / name).read_bytes()
+            ok_utf8 = True
+            try:
+                after.decode("utf-8")
+            except UnicodeDecodeError:
+                ok_utf8 = False
+            if after != data and bad is None:
+                # rewriting is only acceptable when every previously declared requirement survives in the new text
+                new = after.decode("utf-8", "replace")
+                if isinstance(cs, str) or not all(r in new for r in ("requests==2.31.0", "flask>=2.0", "-r other.txt")):
+                    bad = {"clause": "a manifest that is not valid UTF-8 is left untouched (or rewritten without losing content)", "encoding": enc,
+                           "before": data[:80].hex(), "after": after[:120].hex(), "changeset": str(cs)[:200], "after is utf-8": ok_utf8}
+    return evals, bad
 
 
 def run_writers(tier, seed):
@@ -304,6 +356,12 @@ def run_writers(tier, seed):
                                 "witness": bad, "samples": samples, "func": func,
                                 "reason": f"{name}: clause '{bad.get('clause')}' fails on a generated manifest",
                                 "replay": {"reproduced": True, "detail": json.dumps(bad, default=str)[:2000]}, "clause": clause})
+        ev, b = run_undecodable(tmp)
+        records.append({"kind": "bounded", "id": "bounded:writer chain leaves a manifest it cannot decode untouched", "status": "refuted" if b else "discharged",
+                        "bound": "requirements.txt in UTF-16 (BOM) and latin-1", "evaluations": ev, "witness": b,
+                        "func": "codemodder.dependency_management.requirements_txt_writer.RequirementsTxtWriter._parse_file",
+                        "reason": "" if not b else "a non-UTF-8 manifest was rewritten and lost content", "replay": {"reproduced": True, "detail": json.dumps(b)} if b else None,
+                        "clause": "bytes(after) == bytes(before) unless every declared requirement survives"})
     finally:
         shutil.rmtree(tmp, ignore_errors=True)
     return records
